@@ -245,6 +245,15 @@ fn case(m: &mut Mon, r: &mut Rng, _idx: u64) {
                     let i = int(neg, &limbs_of_nat(val));
                     out.push(("from_le_bytes".into(), if i.is_zero() { IBig::ZERO } else { IBig::from_le_bytes(&i.to_signed_bytes_le()) }));
                     out.push(("parse".into(), IBig::from_str_radix(&i.to_str_radix(10), 10).unwrap()));
+                    // in-place clone onto previous values of either sign: a smaller host, a host of the same length
+                    // (buffer reused), a slightly longer one (still reusable) and a much longer one (reallocated)
+                    let src = IBig::from_parts(sgn(neg), ubig(&limbs_of_nat(val)));
+                    let n = limbs_of_nat(val).len();
+                    for (hl, hneg) in [(1usize, true), (n, true), (n, false), (n + 1, true), (n + n / 4 + 2, true), (n + 2, false), (3 * n + 9, true)] {
+                        let mut host = IBig::from_parts(sgn(hneg), ubig(&gen::shape(r, hl.max(1))));
+                        host.clone_from(&src);
+                        out.push((format!("clone_from(host {} limbs, {})", hl, if hneg { "negative" } else { "positive" }), host));
+                    }
                     out
                 };
                 let rv = catch(|| mk(r, &v, nv)).or_else(|p| fail("unexpected_panic", p))?;
